@@ -515,8 +515,8 @@ def _apply(rng, kind, ast, net, info):
         info["maybe_accepted"] = True
         return True
     if kind == "prob_property":
-        # a property line inside a probability block: allowed by bif-syntax.lark, but __add_cpt__ has no
-        # case for it (assert False) -- the file is refused although it is well-formed BIF
+        # a property line inside a probability block: allowed by bif-syntax.lark; a well-formed file that must
+        # be accepted with the same network (before /repo c2e32f2 __add_cpt__ ran into `assert False`)
         pb = rng.choice(probs)
         pb["items"].insert(rng.randrange(len(pb["items"]) + 1), ["property", "note some text, with commas"])
         info["well_formed_bif"] = True
